@@ -201,7 +201,7 @@ func runC10(r *mon.Run) {
 		check("ParseASN1PublicKey", k2, e2)
 		// the caller reuses / scrubs its input buffers afterwards: the keys are unaffected
 		for j := range in1 {
-			in1[j] ^= 0xa5
+			in1[j] += 0xa5
 		}
 		for j := range in2 {
 			in2[j] = 0
@@ -214,6 +214,7 @@ func runC10(r *mon.Run) {
 		}
 	})
 
+	r.Require("c10:frompoint:after-failed-decodes")
 	r.Each("c10/from-point", r.N(3000, 100000), func(w *mon.W, i int) {
 		rng := w.Rng
 		P := pool[rng.Intn(len(pool))]
@@ -225,6 +226,26 @@ func runC10(r *mon.Run) {
 			w.Class("c10:frompoint:rep-nontrivial")
 		}
 		lp := pointRep(P.P, z)
+		if i%3 == 1 {
+			// the point has a history: it was the receiver of decodes that FAILED (twist x,
+			// off-curve y, non-canonical coordinate, bad prefix) - it must still be P
+			w.Class("c10:frompoint:after-failed-decodes")
+			tx := b32(nonResidueX(rng.Below(bigP)))
+			gx := b32(oracle.G().X)
+			for _, bad := range [][]byte{
+				append([]byte{2}, tx...), append([]byte{3}, tx...),
+				append(append([]byte{4}, gx...), b32(big.NewInt(12345))...),
+				append(append([]byte{4}, gx...), b32(new(big.Int).Sub(oracle.Two256, big.NewInt(1)))...),
+				append([]byte{5}, gx...), {0, 0}, {},
+			} {
+				if q, err := lp.SetBytes(bad); err == nil || q != nil {
+					w.Fail("c10/SetBytes:bad", fmt.Sprintf("SetBytes(%x) on a key-bound point: err=%v", bad, err))
+				}
+			}
+			if _, err := lp.SetCompressedBytes(append([]byte{2}, tx...)); err == nil {
+				w.Fail("c10/SetCompressedBytes:bad", "a twist x-coordinate was accepted")
+			}
+		}
 		before := snapPoint(lp)
 		k, err := secec.NewPublicKeyFromPoint(lp)
 		w.Case(true, []byte("frompoint"), []byte(P.Name), b32(z))
